@@ -224,3 +224,46 @@ def c13(tier, replay=None):
                        "dense-cache instance in reverse order, the system-wide pass, fresh instances again; distinct = batches")
     chk.assumptions += ["termination of the real code is observed by a 60 s watchdog, termination of the modelled driver is checked by TLC"]
     return chk.finish()
+
+
+# ------------------------------------------------------------------------------------------------
+def c12(tier, replay=None):
+    chk = Check("C12", tier, "model_checking")
+    T = chk.thorough()
+    # (M) the interner design: all build histories up to MaxCalls
+    cfg = pv.write_cfg(chk.work / "Interner.cfg", spec="Spec", constants={"MaxCalls": 4},
+                       invariants=("Canonical", "ConstsFixed", "SameCallSameRef"), properties=("Stable",))
+    r = pv.tlc_ok("Interner", cfg, workers=8, timeout=3000)
+    chk.add_states(r.generated, r.distinct)
+    chk.part("Interner_model", states=r.distinct, max_calls=4)
+    # (G) every behaviour of 3 calls, replayed on the real Context
+    behs, gen, dist = pv.generate("Interner", {"MaxCalls": 3}, "interner_beh", invariants=("Emit",), workers=8, deps=["Interner"])
+    trace = chk.work / "trace.ndjson"
+    if replay:
+        rep = json.loads(Path(replay).read_text())
+        Path(trace).write_text("\n".join(json.dumps(x) for x in rep["detail"]["events"]) + "\n")
+        info = {}
+    else:
+        pv.write_ndjson(chk.work / "beh.ndjson", behs)
+        p = pv.pv(["c12", "--in", chk.work / "beh.ndjson", "--out", trace, "--histories", 12 if T else 3, "--len", 50000 if T else 6000])
+        info = json.loads(p.stdout.strip().splitlines()[-1])
+    rejects, st = pv.validate("Trace_C12", pv.SPEC / "Trace.cfg", trace, shards=12, boundary='"ev":"Reset"')
+    chk.add_states(st["generated"], st["distinct"])
+    chk.cov["traces_validated_against_impl"] = info.get("behaviours", 1)
+    lines = None
+    for rj in rejects:
+        if lines is None:
+            lines = Path(trace).read_text().splitlines()
+        k = rj["l"] - 1
+        s = k
+        while s > 0 and '"ev":"Reset"' not in lines[s]:
+            s -= 1
+        evs = [json.loads(x) for x in lines[s:k + 1]]
+        chk.report({"why": rj["why"], "ev": rj.get("ev", "")}, {"events": evs[-400:] if len(evs) > 400 else evs, "tlc": rj})
+    chk.sample({"behaviour": behs[len(behs) // 2]})
+    chk.cov["evaluations"] = st["records"]
+    chk.cov["distinct_nontrivial"] = info.get("behaviours", 1)
+    chk.cov["rule"] = ("all 3-call behaviours of Interner.tla replayed on fresh Contexts + long seeded random build histories mixing all builder "
+                       "methods, literals produced by different computations, re-builds and look-ups; distinct = behaviours/histories")
+    chk.part("harness", **info)
+    return chk.finish()
